@@ -407,6 +407,15 @@ def make_script(vs, r, probes_model, rng, level="std", str_cap=48, pairs_cap=36,
             rp = rand_path(rng.randint(3, 30), m)
             session(L, f"range:{model[a]}:{model[b]}:r{h(json.dumps(rp) + str(j))}", f"range {bits(a)} {bits(b)}",
                     rp, cons_for(j) if big and m > 5000 else (("count", 0) if big else CONSUMERS[j % len(CONSUMERS)]))
+    if n > 6 and runs_of(reals) > 8:
+        # enums with many runs: a range endpoint at the LAST and at the SECOND value of every run (a blocked or binary search
+        # over the run table that looks at the wrong bound of a run goes wrong for exactly one residue of the run number)
+        srt = sorted(reals)
+        ends = [x for i, x in enumerate(srt) if i + 1 == len(srt) or srt[i + 1] != x + 1]
+        seconds = [srt[i + 1] for i, x in enumerate(srt[:-1]) if (i == 0 or srt[i - 1] != x - 1) and srt[i + 1] == x + 1]
+        for j, x in enumerate((ends + seconds)[:160]):
+            session(L, f"range:{model[srt[0]]}:{model[x]}:runA", f"range {bits(srt[0])} {bits(x)}", [], ("count", 0), observe=False)
+            session(L, f"range:{model[x]}:{model[srt[-1]]}:runB", f"range {bits(x)} {bits(srt[-1])}", [("next", 0)], ("count", 0), observe=False)
     if n > 6:
         # ranges that touch the ends of the list, whatever the random choices above were
         srt = sorted(reals)
@@ -751,6 +760,27 @@ class Plan:
             cases.append(self.new_case(r, vs, cfgs[(k + k // len(cfgs)) % len(cfgs)], script, f"many:{k}"))
         # one group without a group property: a group is never split over binaries, so all of them are derived by ONE rustc
         self.add_group("", cases, "many")
+
+    # -- B1d: every primitive repr, whatever the seed rotates in: a gapless enum and one with holes that cross zero (signed) or
+    # sit away from it (unsigned), and the limits of the domain for the reprs that reach them
+    def all_reprs(self):
+        rng = random.Random("all-reprs")
+        for r in prim.REPRS:
+            sg = prim.signed(r)
+            decls = [list(range(-3, 3)) if sg else list(range(5, 11)), [-5, -4, 0, 1, 7] if sg else [0, 1, 5, 6, 200]]
+            if prim.dmin(r) <= -(1 << 63):
+                decls.append([-(1 << 63), -(1 << 63) + 1, -1, 0])
+            if prim.dmax(r) >= (1 << 63) - 1:
+                decls.append([0, 1, (1 << 63) - 2, (1 << 63) - 1])
+            for reals in decls:
+                gapless = runs_of(reals) == 1
+                vs = decorate(reals, r, rng, "ident", "shuffle", "dec")
+                p = prim.Proj(r)
+                pr = sorted({p.model_tmin(), p.model_tmax()} | {p.to_model(x + d) for x in reals for d in (-1, 0, 1) if prim.tmin(r) <= x + d <= prim.tmax(r)})
+                script = make_script(vs, r, pr, rng, level="light", str_cap=8, pairs_cap=12)
+                ks = kappa_list(gapless)
+                cases = [self.new_case(r, vs, cfg, script, f"allreprs:{lab}") for lab, cfg in ks[:3]]
+                self.add_group("C09", cases, "shapes")
 
     # -- B2: sorted(name) / sorted(value) must not change behaviour either (C09)
     def sorted_cfgs(self, n_decls):
@@ -1217,6 +1247,7 @@ def build_plan(tier, seed):
         pl.solo_cfgs()
         pl.pairwise(250)
         pl.many_enums(530)
+        pl.all_reprs()
         pl.raw_idents()
         pl.alias_shapes()
         pl.perms_reprs(30)
@@ -1236,7 +1267,9 @@ def build_plan(tier, seed):
                         # enums WITH HOLES in which one run spans more than half of a one-byte signed type (its length does not
                         # fit the repr): at the lower limit, in the middle, at the upper limit
                         ("i8", list(range(-128, 20)) + [50]), ("i8", [-128] + list(range(-100, 50)) + [127]),
-                        ("i8", [-128, -127] + list(range(-10, 128)))])
+                        ("i8", [-128, -127] + list(range(-10, 128))),
+                        # many runs of several values (more than 32 / 64 runs: blocked searches over the run table)
+                        ("i16", [10 * k + j - 200 for k in range(40) for j in range(3)]), ("u8", [3 * k + j for k in range(85) for j in range(2)])])
     else:
         pl.shapes(prim.REPRS, per_repr_small=None, per_repr_large=200, kappas_per_shape=3)
         pl.full_paths()
@@ -1246,6 +1279,7 @@ def build_plan(tier, seed):
         pl.solo_cfgs()
         pl.pairwise(1 << 30)
         pl.many_enums(1100)
+        pl.all_reprs()
         pl.raw_idents()
         pl.alias_shapes()
         pl.perms_reprs(150)
@@ -1264,6 +1298,7 @@ def build_plan(tier, seed):
                         ("u8", [x for x in range(0, 100) if x % 5 != 0]), ("i64", [x for x in range(-40, 40) if x % 3 != 0]),
                         ("i8", list(range(-128, 20)) + [50]), ("i8", [-128] + list(range(-100, 50)) + [127]),
                         ("i8", [-128, -127] + list(range(-10, 128))),
+                        ("i16", [10 * k + j - 200 for k in range(40) for j in range(3)]), ("u8", [3 * k + j for k in range(85) for j in range(2)]),
                         ("i16", list(range(-32768, 10)) + [20, 21]),          # a run of 32 778 values in a two-byte signed type
                         ("i64", list(range(-9223372036854775808, -9223372036854775808 + 3000)))])
     return pl
